@@ -303,6 +303,24 @@ def random_history(d, rng, ctx):
         d.act({'op': 'close', 'n': n, 'form': 0})
 
 
+def bounds_history(d, rng):
+    """Scripted history around the record-number bounds 1 and 2^25 (every run, so that detection does not depend on the seed)."""
+    d.fresh()
+    rl = rng.choice([1, 2, 7, 128])
+    d.act({'op': 'open', 'n': 1, 'name': 'A', 'reclen': rl, 'form': 0})
+    d.act({'op': 'lset', 'n': 1, 'var': 'W1$', 'off': 0, 'w': rl, 's': [rng.randrange(1, 256) for _ in range(rl)]})
+    d.act({'op': 'put', 'n': 1, 'imp': False, 'rec': 1, 'form': 0})
+    for rec in (0, -1, -32768, TWO25 + 4, 40000000):
+        for op in ('put', 'get'):
+            d.act({'op': op, 'n': 1, 'imp': False, 'rec': rec, 'form': rng.randint(0, 3)})
+    for rec in (1, 1 << 24, TWO25 - 2, TWO25):
+        d.act({'op': 'get', 'n': 1, 'imp': False, 'rec': rec, 'form': 0})
+    d.act({'op': 'get', 'n': 1, 'imp': True, 'rec': 0, 'form': 0})      # implicit 2^25+1: open finding
+    d.act({'op': 'get', 'n': 1, 'imp': False, 'rec': 1, 'form': 0})
+    d.act({'op': 'put', 'n': 1, 'imp': True, 'rec': 0, 'form': 0})      # record 2
+    d.act({'op': 'close', 'n': 1, 'form': 0})
+
+
 def judge(ctx, d, verdicts):
     events = d.events
     for e in events:
@@ -377,12 +395,13 @@ def run(ctx):
     nwalk = len(walks)
     # 3. code -> spec: random histories
     nh = ctx.pick(150, 3000)
+    bounds_history(d, ctx.rng)
     for h in range(nh):
         random_history(d, ctx.rng, ctx)
     if d.s:
         d.s.close()
     verdicts = run_validation(ctx, d)
-    ctx.cov['traces_validated_against_impl'] += nwalk + nh
+    ctx.cov['traces_validated_against_impl'] += nwalk + nh + 1
     ev = d.events
     stats = {'events': len(ev), 'put': 0, 'get': 0, 'err63': 0, 'gap_puts': 0, 'closes_with_host_bytes': 0, 'reopen': 0}
     seen_names = set()
